@@ -27,6 +27,8 @@ func init() {
 			"Does not decide: equality with a reference protobuf parser on all encodings (last-value-wins for scalars follows from straight overwrites, which is checked only as 'stores are unconditional').",
 		Fixtures: []string{"guardcut", "bounds"},
 		Variants: []Variant{
+			{Name: "varint-field-accepts-fixed-wiretypes", File: pkgConnectutil + "/principal.go",
+				Old: "(!wantBytes && typ != protowire.VarintType)", New: "(!wantBytes && typ == protowire.BytesType)", Expect: "consume-matches-wiretype"},
 			{Name: "wrong-wiretype-skipped", File: pkgConnectutil + "/principal.go",
 				Old:    "\t\t\tif isPrincipalField {\n\t\t\t\treturn nil, fmt.Errorf(\"session field %d has unexpected wire type %d\", num, typ)\n\t\t\t}\n",
 				New:    "",
@@ -322,6 +324,9 @@ func runC41(c *Ctx) {
 		c.Check("wrong-wiretype-rejected", "skip-only-foreign-fields@ExtractSessionPrincipalWire", cl, g && n > 0,
 			"a principal field (6..12) with an unexpected wire type is skipped like an unknown field instead of rejecting the proposal")
 	})
+
+	// ---- the payload of a principal field is parsed as the wire type the tag announced
+	checkConsumeMatchesWireType(c, fn)
 
 	// ---- envelope gate (unknown path)
 	var envStores []*ssa.Store
